@@ -206,6 +206,7 @@ struct C20 : Harness {
             m.D = xs[i].D; m.R = xs[i].R; m.S = xs[i].S; m.prog = xs[i].prog;
             std::string where = "[DEBUG=" + std::to_string(m.D) + ", runtime level " + std::to_string(m.R) + (m.S ? ", silent" : "") + "]";
             m.check(xs[i].k, status, ret, flow, evals, unhex(hex), where);
+            if (i % 11 == 3) ctx.sample(std::string(kStmts[xs[i].k].macro) + " " + where + " -> status=" + std::to_string(status) + " evals=" + std::to_string(evals) + " flow=" + std::to_string(flow) + " out='" + printable(unhex(hex)).substr(0, 80) + "'");
         }
         ctx.evals((long)xs.size());
         ctx.nontrivial_count((long)xs.size());
